@@ -917,3 +917,258 @@ def mutate_sequence(draw, seq, alphabet, foreign):
     elif k == 'rep' and alphabet and seq: seq[draw(st.integers(0, len(seq) - 1))] = draw(st.sampled_from(alphabet))
     else: seq.insert(draw(st.integers(0, len(seq))), foreign)
     return seq, k
+
+# ==================================================================================================
+# 7. deep lane: derivation by extension/restriction, xsi:type, xsi:nil, abstract/block, imports, value constraints
+# ==================================================================================================
+def copy_particle(p):
+    q = Particle(p.k, p.mn, p.mx, [copy_particle(c) for c in p.ch], p.decl, p.nsc, p.pc, p.named)
+    return q
+
+@st.composite
+def gen_deep_schema(draw):
+    tns = draw(st.sampled_from(['urn:t', 'urn:t', '']))
+    efd = draw(st.sampled_from(['qualified', 'unqualified'])) if tns else 'unqualified'
+    s = Schema(tns, efd)
+    lns = tns if efd == 'qualified' else ''
+    imp = None
+    if draw(st.booleans()):
+        imp = Schema(OTHER_NS, 'qualified', 'o.xsd')
+        wt = draw(st.sampled_from(['int', 'string', 'ct']))
+        if wt == 'ct': wt = CType(content=Particle('seq', 1, 1, [Particle('e', 1, 2, decl=ElemDecl('k', OTHER_NS, 'int'))]), attrs=[AttrUse('x', 'boolean', 'required')])
+        imp.elements.append(ElemDecl('w', OTHER_NS, wt, is_global=True))
+        s.imports.append(imp)
+    occs = [(1, 1), (0, 1), (0, 3), (1, 3), (2, 4), (0, INF), (1, INF), (2, 2)]
+    def leaf(name, typ=None, occ=None, **kw):
+        o = occ or draw(st.sampled_from(occs))
+        return Particle('e', o[0], o[1], decl=ElemDecl(name, lns, typ or draw(st.sampled_from(['string', 'int', 'boolean'])), **kw))
+    # base type B
+    bl = [leaf('a')] + ([leaf('b')] if draw(st.booleans()) else [])
+    p_attr = AttrUse('p', draw(st.sampled_from(['int', 'string'])), 'optional')
+    if draw(st.booleans()): p_attr.default = SIMPLE_OK[p_attr.tname][0 if p_attr.tname == 'int' else 1]
+    B = CType('B', Particle('seq', 1, 1, bl), attrs=[p_attr] + ([AttrUse('s', 'boolean', 'optional')] if draw(st.booleans()) else []))
+    r = draw(st.integers(0, 9))
+    if r == 0: B.abstract = True
+    B.block = draw(st.sampled_from(['', '', '', 'extension', 'restriction', '#all', 'extension restriction']))
+    s.add_type(B)
+    # E: extension
+    ext = Particle('seq', 1, 1, [leaf('c')])
+    q_attr = AttrUse('q', 'string', draw(st.sampled_from(['required', 'optional'])))
+    E = CType('E', Particle('seq', 1, 1, [B.content, ext]), attrs=B.attrs + [q_attr], base=B, deriv='extension', ext_particle=ext)
+    E.own_attrs = [q_attr]; s.add_type(E)
+    # R: restriction (narrowed occurrences; an optional leaf may be dropped; an optional attribute becomes required/prohibited)
+    rl = []
+    for i, c in enumerate(bl):
+        mn, mx = c.mn, c.mx
+        if mn == 0 and i > 0 and draw(st.integers(0, 3)) == 0: continue
+        nmn = mn + (1 if (mx is None or mx > mn) and draw(st.booleans()) else 0)
+        nmx = mx
+        if mx is None and draw(st.booleans()): nmx = nmn + draw(st.integers(0, 2))
+        elif mx is not None and mx > nmn and draw(st.booleans()): nmx = mx - 1
+        if nmx is not None and nmx == 0: nmx = mx; nmn = mn
+        rl.append(Particle('e', nmn, nmx, decl=c.decl))
+    ruse = draw(st.sampled_from(['required', 'prohibited', 'optional']))
+    rp = AttrUse('p', p_attr.tname, ruse, default=(p_attr.default if ruse == 'optional' else None))
+    R = CType('R', Particle('seq', 1, 1, rl), attrs=[rp] + B.attrs[1:], base=B, deriv='restriction')
+    R.own_attrs = [rp]; s.add_type(R)
+    # E2: extension of E (two derivation steps)
+    ext2 = Particle('seq', 1, 1, [leaf('d', occ=(0, 1))])
+    E2 = CType('E2', Particle('seq', 1, 1, [E.content, ext2]), attrs=list(E.attrs), base=E, deriv='extension', ext_particle=ext2)
+    E2.own_attrs = []; s.add_type(E2)
+    # U: unrelated type
+    U = CType('U', Particle('seq', 1, 1, [leaf('u', occ=(0, 1))])); s.add_type(U)
+    # root
+    x = ElemDecl('x', lns, B, nillable=draw(st.booleans()), block=draw(st.sampled_from(['', '', '', 'extension', 'restriction', '#all'])))
+    ytyp = draw(st.sampled_from(['int', 'string', 'boolean', 'decimal']))
+    y = ElemDecl('y', lns, ytyp, nillable=draw(st.booleans()))
+    vc = draw(st.integers(0, 2))
+    lit = draw(st.sampled_from(SIMPLE_OK[ytyp][:2])) if ytyp != 'string' else 'dflt'
+    if vc == 1: y.default = lit
+    elif vc == 2: y.fixed = lit
+    parts = [Particle('e', *draw(st.sampled_from([(1, 1), (1, 3), (0, 2)])), decl=x), Particle('e', *draw(st.sampled_from([(0, 1), (1, 1), (0, 2)])), decl=y)]
+    if imp is not None:
+        if draw(st.booleans()): parts.append(Particle('e', *draw(st.sampled_from([(0, 1), (1, 2)])), decl=imp.elements[0]))
+        else: parts.append(Particle('any', *draw(st.sampled_from([(0, 1), (1, 2), (0, INF)])), nsc='##other' if tns else OTHER_NS, pc=draw(st.sampled_from(['strict', 'lax', 'skip']))))
+    rt = CType(content=Particle('seq', 1, 1, parts))
+    s.elements.append(ElemDecl('r', tns, rt, is_global=True))
+    return s
+
+def derived_types(schema, typ):
+    return [t for sc in schema.all_schemas() for t in sc.types if t is not typ and t.derives_from(typ)]
+
+def fill_deep(oracle, n, d, draw, depth=0):
+    """biased towards validity; the verdict always comes from Oracle.assess"""
+    typ = d.typ
+    if not isinstance(typ, str) and typ.name and draw(st.integers(0, 2)) > 0 or (not isinstance(typ, str) and typ.abstract):
+        ders = derived_types(oracle.schema, typ)
+        if ders:
+            t2 = draw(st.sampled_from(ders)); n.xsi_type = (t2.tns, t2.name); typ = t2
+    if d.nillable and draw(st.integers(0, 4)) == 0:
+        n.xsi_nil = 'true'
+        if not isinstance(typ, str):
+            for a in typ.attrs:
+                if a.use == 'required': n.attrs[a.key()] = a.fixed if a.fixed is not None else SIMPLE_OK[a.tname][1 if a.tname == 'string' else 0]
+        return
+    if d.nillable and draw(st.integers(0, 5)) == 0: n.xsi_nil = 'false'
+    if isinstance(typ, str):
+        if d.fixed is not None: n.children = [d.fixed] if draw(st.booleans()) else []
+        elif d.default is not None and draw(st.booleans()): n.children = []
+        else:
+            v = draw(st.sampled_from(SIMPLE_OK[typ])); n.children = [v] if v != '' else []
+        return
+    for a in typ.attrs:
+        if a.use == 'required' or (a.use == 'optional' and draw(st.booleans())):
+            n.attrs[a.key()] = a.fixed if a.fixed is not None else draw(st.sampled_from(SIMPLE_OK[a.tname]))
+    c = typ.content
+    if isinstance(c, tuple): n.children = [draw(st.sampled_from(SIMPLE_OK[c[1]]))]; return
+    if c is None: return
+    tm = oracle.tm(typ, typ.tns or oracle.schema.tns)
+    for key in valid_sequence(tm, oracle.schema, draw):
+        ch = Node(key[0], key[1])
+        leaf = tm.attribute(key)
+        if leaf is not None and depth < 5:
+            if leaf.k == 'e': fill_deep(oracle, ch, tm.elem_decl_for(leaf, key), draw, depth + 1)
+            else:
+                g = oracle.schema.find_global(key)
+                if g is not None: fill_deep(oracle, ch, g, draw, depth + 1)
+        n.children.append(ch)
+
+DEEP_MUTATIONS = ['xsitype-unknown', 'xsitype-unrelated', 'xsitype-derived', 'xsitype-drop', 'nil-true', 'nil-true-content', 'nil-false', 'drop-attr', 'add-attr',
+                  'bad-attr-value', 'bad-text', 'add-child', 'drop-child', 'dup-child', 'swap-ns', 'text-in-eo', 'wild-undeclared', 'clear-text']
+
+def all_nodes(n, out=None):
+    out = [] if out is None else out
+    out.append(n)
+    for c in n.elems(): all_nodes(c, out)
+    return out
+
+def mutate_deep(draw, schema, root):
+    m = root.copy()
+    nodes = all_nodes(m)
+    kind = draw(st.sampled_from(DEEP_MUTATIONS))
+    n = draw(st.sampled_from(nodes))
+    parents = [p for p in nodes if p.elems()]
+    if kind == 'xsitype-unknown': n.xsi_type = (schema.tns, 'Nope')
+    elif kind == 'xsitype-unrelated': n.xsi_type = (schema.tns, 'U')
+    elif kind == 'xsitype-derived': n.xsi_type = (schema.tns, draw(st.sampled_from(['E', 'R', 'E2', 'B'])))
+    elif kind == 'xsitype-drop': n.xsi_type = None
+    elif kind == 'nil-true': n.xsi_nil = 'true'; n.children = []
+    elif kind == 'nil-true-content': n.xsi_nil = 'true'; n.children = n.children or ['1']
+    elif kind == 'nil-false': n.xsi_nil = 'false'
+    elif kind == 'drop-attr' and n.attrs: del n.attrs[draw(st.sampled_from(sorted(n.attrs)))]
+    elif kind == 'add-attr': n.attrs[draw(st.sampled_from([('', 'p'), ('', 'q'), ('', 's'), ('', 'zz'), (OTHER_NS, 'p')]))] = draw(st.sampled_from(['1', 'true', 'x']))
+    elif kind == 'bad-attr-value' and n.attrs: n.attrs[draw(st.sampled_from(sorted(n.attrs)))] = draw(st.sampled_from(['x y', '1.5', '']))
+    elif kind == 'bad-text': n.children = [c for c in n.children if isinstance(c, Node)] + [draw(st.sampled_from(['zz', '1.5', 'tru']))]
+    elif kind == 'clear-text': n.children = [c for c in n.children if isinstance(c, Node)]
+    elif kind == 'add-child':
+        n.children.insert(draw(st.integers(0, len(n.children))), Node(draw(st.sampled_from([n.ns, '', schema.tns, OTHER_NS])), draw(st.sampled_from(['a', 'b', 'c', 'd', 'x', 'y', 'w', 'zz']))))
+    elif kind == 'drop-child' and parents:
+        p = draw(st.sampled_from(parents)); p.children.remove(draw(st.sampled_from(p.elems())))
+    elif kind == 'dup-child' and parents:
+        p = draw(st.sampled_from(parents)); c = draw(st.sampled_from(p.elems())); p.children.insert(p.children.index(c), c.copy())
+    elif kind == 'swap-ns': n.ns = '' if n.ns else (schema.tns or OTHER_NS)
+    elif kind == 'text-in-eo': n.children.insert(draw(st.integers(0, len(n.children))), draw(st.sampled_from(['t', ' ', '\n'])))
+    elif kind == 'wild-undeclared': m.children.append(Node(OTHER_NS, draw(st.sampled_from(['w', 'zz']))))
+    return kind, m
+
+def expected_info(oracle, root):
+    """for a schema-VALID tree: list per element (document order) of
+       (key, type name {ns}local | None when anonymous, {attr key: value} of attributes supplied by default/fixed, default text | None)"""
+    out = []
+    def walk(n, d):
+        typ = d.typ
+        if n.xsi_type is not None and n.xsi_type[0] != XS: typ = oracle.schema.find_type(*n.xsi_type)
+        nil = n.xsi_nil is not None and n.xsi_nil.strip() in ('true', '1')
+        if isinstance(typ, str):
+            tn = '{%s}%s' % (XS, typ); dattrs = {}
+            dt = None
+            if not nil and not n.children and (d.fixed is not None or d.default is not None): dt = d.fixed if d.fixed is not None else d.default
+            out.append((n.key(), tn, dattrs, dt)); return
+        tn = '{%s}%s' % (typ.tns, typ.name) if typ.name else None
+        dattrs = {a.key(): (a.fixed if a.fixed is not None else a.default) for a in typ.attrs
+                  if a.use != 'prohibited' and a.key() not in n.attrs and (a.fixed is not None or a.default is not None)}
+        out.append((n.key(), tn, dattrs, None))
+        if nil or not isinstance(typ.content, Particle): return
+        tm = oracle.tm(typ, typ.tns or oracle.schema.tns)
+        for k in n.elems():
+            leaf = tm.attribute(k.key())
+            if leaf is None: out.append((k.key(), None, None, None)); skip(k); continue
+            if leaf.k == 'e': walk(k, tm.elem_decl_for(leaf, k.key()))
+            else:
+                g = oracle.schema.find_global(k.key())
+                if g is not None and leaf.pc != 'skip': walk(k, g)
+                else: out.append((k.key(), None, None, None)); skip(k)
+    def skip(n):
+        for k in n.elems(): out.append((k.key(), None, None, None)); skip(k)
+    walk(root, oracle.schema.find_global(root.key()))
+    return out
+
+# ==================================================================================================
+# 8. invalid-schema mutations (each plants exactly one violation of a constraint on schema components / representation)
+# ==================================================================================================
+BAD_SCHEMA_MUTATIONS = ['min-gt-max', 'dup-global-element', 'dup-global-type', 'unresolved-type', 'unresolved-ref', 'dup-attribute', 'all-in-sequence',
+                        'unresolved-base', 'default-and-fixed', 'default-required', 'all-member-max2', 'dup-group', 'non-upa']
+
+def mutate_schema_text(text, kind, tnsprefix):
+    """-> mutated schema text or None when the mutation does not apply.  Works on the rendered text so exactly one rule is broken."""
+    q = (tnsprefix + ':') if tnsprefix else ''
+    if kind == 'min-gt-max':
+        m = re.search(r'<xs:(element|sequence|choice)( (?:name|ref)="[^"]*")?( type="[^"]*")?(?= |>|/)', text[text.index('<xs:element'):])
+        i = text.index('<xs:complexType')
+        m = re.search(r'<xs:(element (?:name|ref)="[^"]*"(?: type="[^"]*")?|sequence|choice)', text[i:])
+        if not m: return None
+        j = i + m.end()
+        rest = text[j:text.index('>', j)]
+        if 'minOccurs' in rest or 'maxOccurs' in rest:
+            rest2 = re.sub(r' minOccurs="[^"]*"', '', rest); rest2 = re.sub(r' maxOccurs="[^"]*"', '', rest2)
+            return text[:j] + ' minOccurs="3" maxOccurs="2"' + rest2 + text[j + len(rest):]
+        return text[:j] + ' minOccurs="3" maxOccurs="2"' + text[j:]
+    if kind == 'dup-global-element':
+        return text.replace('</xs:schema>', '  <xs:element name="r" type="xs:string"/>\n</xs:schema>')
+    if kind == 'dup-global-type':
+        m = re.search(r'  <xs:complexType name="([^"]*)"', text)
+        if not m: return None
+        return text.replace('</xs:schema>', '  <xs:complexType name="%s"><xs:sequence/></xs:complexType>\n</xs:schema>' % m.group(1))
+    if kind == 'dup-group':
+        m = re.search(r'  <xs:group name="([^"]*)"', text)
+        if not m: return None
+        return text.replace('</xs:schema>', '  <xs:group name="%s"><xs:sequence/></xs:group>\n</xs:schema>' % m.group(1))
+    if kind == 'unresolved-type':
+        m = re.search(r'<xs:element name="[^"]*" type="xs:(string|int)"', text)
+        if not m: return None
+        return text[:m.start()] + m.group(0).replace('type="xs:' + m.group(1) + '"', 'type="%sNoSuchType"' % q) + text[m.end():]
+    if kind == 'unresolved-ref':
+        i = text.find('<xs:sequence>'); k = '<xs:sequence>'
+        if i < 0: i = text.find('<xs:choice>'); k = '<xs:choice>'
+        if i < 0: return None
+        return text[:i + len(k)] + '<xs:element ref="%snoSuchElement" minOccurs="0"/>' % q + text[i + len(k):]
+    if kind == 'unresolved-base':
+        return text.replace('</xs:schema>', '  <xs:complexType name="ZZ"><xs:complexContent><xs:extension base="%sNoSuchBase"/></xs:complexContent></xs:complexType>\n</xs:schema>' % q)
+    if kind == 'dup-attribute':
+        m = re.search(r'( *)<xs:attribute name="([^"]*)" type="xs:([A-Za-z]*)"', text)
+        if not m: return None
+        return text[:m.start()] + '%s<xs:attribute name="%s" type="xs:%s"/>\n' % (m.group(1), m.group(2), m.group(3)) + text[m.start():]
+    if kind == 'all-in-sequence':
+        i = text.find('<xs:sequence>')
+        if i < 0: return None
+        return text[:i + 13] + '<xs:all><xs:element name="zq" type="xs:string"/></xs:all>' + text[i + 13:]
+    if kind == 'default-and-fixed':
+        m = re.search(r'<xs:attribute name="[^"]*" type="xs:string"(?=/>)', text)
+        if not m: return None
+        return text[:m.end()] + ' default="d" fixed="d"' + text[m.end():]
+    if kind == 'default-required':
+        m = re.search(r'<xs:attribute name="[^"]*" type="xs:string" use="required"(?=/>)', text)
+        if not m: return None
+        return text[:m.end()] + ' default="d"' + text[m.end():]
+    if kind == 'all-member-max2':
+        i = text.find('<xs:all')
+        if i < 0: return None
+        m = re.search(r'<xs:element (name|ref)="[^"]*"( type="[^"]*")?', text[i:])
+        if not m: return None
+        j = i + m.end(); rest = text[j:text.index('>', j)]
+        rest2 = re.sub(r' maxOccurs="[^"]*"', '', rest)
+        return text[:j] + ' maxOccurs="2"' + rest2 + text[j + len(rest):]
+    if kind == 'non-upa':
+        # (zq?, zq) : the second zq particle competes with the first (checked only under full schema checking)
+        return text.replace('</xs:schema>', '  <xs:complexType name="ZU"><xs:sequence><xs:element name="zq" type="xs:string" minOccurs="0"/><xs:element name="zq" type="xs:string"/></xs:sequence></xs:complexType>\n</xs:schema>')
+    return None
